@@ -6,7 +6,7 @@ if [ -z "$wt" ]; then wt=/tmp/wt_matrix_$$; git -C /repo worktree add -q --detac
 mkdir -p /verif/selftest
 out=/verif/selftest/matrix.tsv
 echo -e "mutant\tproperty\tapplies\texit\tsignatures" > $out
-for d in /verif/seeded/*/; do
+for d in /verif/seeded/C*/; do
   m=$(basename $d); pid=${m%%_*}
   git -C $wt checkout -q -- .
   if ! git -C $wt apply --check $d/patch.diff 2>/dev/null; then echo -e "$m\t$pid\tno\t-\t-" >> $out; continue; fi
